@@ -10,7 +10,9 @@ CORE = ["x", "X", "_x", "1", '"s"', "{", "}", "(", ")", "[", "]", "<<", ">>", "#
         "+", "-", "fn", "let", "case"]
 EXTRA = ["1.0", "<-", "|>", "@", "/", "||", "&&", "==", "<", "<>", "*", "!", "as", "assert", "const", "external", "if",
          "import", "opaque", "panic", "pub", "todo", "type", "use", "xY", "Xy_", "é", "\r", '"', "&", "$", "0x", "1.",
-         "// c\n", "/// d\n", "//// m\n", "\n"]
+         "// c\n", "/// d\n", "//// m\n", "\n",
+         # number spellings: separators, exponents, other bases, malformed tails (appended: earlier indices are used by slices)
+         "1_000", "0.1_0", "1.5e3", "2.0E-3", "0x1F", "0b1_0", "0o17", "1_", "1.0e", "1e3", "00.5"]
 # characters editors and tools put into files without the user asking (byte order mark, other line/paragraph
 # separators, NUL, no-break and zero-width spaces, form feed, vertical tab) and characters outside the BMP
 EXOTIC = ["\ufeff", "\u2028", "\u2029", "\x00", "\u00a0", "\u200b", "\x0c", "\x0b", "\t", "\u0085", "💣", "e\u0301", "\ufffd", "\x7f"]
